@@ -16,7 +16,8 @@ import (
 )
 
 type liveInfo struct {
-	in map[*ssa.BasicBlock]map[ssa.Value]bool
+	in     map[*ssa.BasicBlock]map[ssa.Value]bool
+	phiUse map[*ssa.BasicBlock]map[*ssa.BasicBlock]map[ssa.Value]bool // block -> predecessor -> values its phis read on that edge
 }
 
 var liveCache = map[*ssa.Function]*liveInfo{}
@@ -67,6 +68,7 @@ func liveness(fn *ssa.Function) *liveInfo {
 			}
 		}
 	}
+	li.phiUse = phiUse
 	changed := true
 	for changed {
 		changed = false
@@ -233,7 +235,7 @@ func (it *Interp) fingerprint(s *State, to *ssa.BasicBlock) uint64 {
 	c := &fpCtx{s: s, sb: &sb, names: map[int]int{}}
 	hasOpq := false
 	for _, t := range s.trail {
-		if t.Opq {
+		if t.Opq || t.Der {
 			hasOpq = true
 		}
 	}
@@ -243,7 +245,14 @@ func (it *Interp) fingerprint(s *State, to *ssa.BasicBlock) uint64 {
 		li := it.live(fr.fn)
 		top := fi == len(s.frames)-1
 		if top {
-			live = li.in[to]
+			live = map[ssa.Value]bool{}
+			for v := range li.in[to] {
+				live[v] = true
+			}
+			// the phis of the target read their operands on this edge
+			for v := range li.phiUse[to][fr.block] {
+				live[v] = true
+			}
 			fmt.Fprintf(&sb, "F%p:%d<-%d|", fr.fn, to.Index, fr.block.Index)
 		} else {
 			// values that may still be used in this frame: live-in of every successor
